@@ -3,6 +3,7 @@ import json, time
 from fractions import Fraction as F
 from core import build, unitgen as G, units_ref as R, exact, boundary
 from core.driver import Driver, DriverDied, DriverTimeout
+from core import multi
 from core.run import Acc, finish, rng_for, run_shards, NCPU
 from c02 import mag
 import c06
@@ -245,6 +246,9 @@ def shard(p):
                     acc.violate("c04:wrong-value:" + "".join(sorted(set(ops))), "%r is %s in SI units, expected %s (result shown as %s %s)" % (q, gv, want[0], oks[0]["ok"].get("v12"), oks[0]["ok"].get("disp")), case)
                 else:
                     acc.sample({"query": q, "si_value": str(gv), "dims": G.si.fmt_dims(gd), "shown_as": "%s %s" % (oks[0]["ok"].get("v12"), oks[0]["ok"].get("disp"))}, cap=1)
+        # several expressions in one query string: each gives what it gives alone (core/multi.py)
+        _qs = [r["q"] for r in reqs if len(r["q"]) < 300]
+        multi.stage(acc, d, rng.sample(_qs, min(len(_qs), 300)), rng, 200, PID, p.get("kind", "dbg"))
     finally:
         d.close()
     return acc
